@@ -1,7 +1,7 @@
 (* C07 — Decoding is total and its normalisation is idempotent. *)
 From Coq Require Import List String Bool ZArith.
 Local Open Scope Z_scope.
-From Spec Require Import Base.Json Codec.Types Codec.Gen_Tables Codec.Codec Codec.CodecFacts.
+From Spec Require Import Base.Json Codec.Types Codec.Gen_Tables Codec.Codec Codec.CodecFacts Codec.PayloadFacts.
 Import ListNotations.
 Local Open Scope string_scope.
 
@@ -36,3 +36,28 @@ Example C07_refuted_items_scalar :
   norm gen_env false (JObj [("items", JBool true)]) (TNamed "Schema") = ROk (JObj [("items", JNull)])
   /\ norm gen_env false (JObj [("items", JNull)]) (TNamed "Schema") = ROk (JObj []).
 Proof. vm_compute. split; reflexivity. Qed.
+
+(* ---------- proved for every input: the free-form positions (Codec/PayloadFacts.v) ---------- *)
+(* default, example, the entries of enum, the values of vendor extensions, unknown keywords of a schema, the examples of a
+   response are free-form payloads: whatever JSON value stands there (any size, any nesting, duplicate member names
+   included), its encoding is a fixed point - decoding and encoding it once more reproduces it *)
+Theorem C07_payload_is_a_fixed_point : forall j v, norm gen_env false j TAny = ROk v -> norm gen_env false v TAny = ROk v.
+Proof. exact (payload_fixed_point gen_env). Qed.
+Print Assumptions C07_payload_is_a_fixed_point.
+
+Theorem C07_payload_normalisation_is_idempotent : forall j, norm_any (norm_any j) = norm_any j.
+Proof. exact norm_any_idem. Qed.
+Print Assumptions C07_payload_normalisation_is_idempotent.
+
+(* the vendor extensions of an object (members whose lower-cased name starts with x-, values as payloads, sorted by name)
+   are read back from an encoding exactly as they were written *)
+Theorem C07_extensions_are_a_fixed_point : forall m, ext_members (ext_members m) = ext_members m.
+Proof. exact ext_members_idem. Qed.
+Print Assumptions C07_extensions_are_a_fixed_point.
+
+(* non-vacuity: a payload with duplicate names, unsorted members and nesting is changed by the first pass, not by the second *)
+Example C07_payload_example :
+  let j := JObj [("b", JNum 1 0); ("a", JArr [JObj [("z", JNull); ("y", JBool true); ("z", JStr "last")]]); ("b", JStr "wins")] in
+  norm gen_env false j TAny = ROk (JObj [("a", JArr [JObj [("y", JBool true); ("z", JStr "last")]]); ("b", JStr "wins")])
+  /\ norm_any j <> j.
+Proof. split; [vm_compute; reflexivity|vm_compute; discriminate]. Qed.
